@@ -1996,7 +1996,12 @@ func (s *SelectStatement) rewriteWithoutTimeDimensions() string {
 	n := RewriteFunc(s.Condition, func(n Node) Node {
 		switch n := n.(type) {
 		case *BinaryExpr:
-			if n.LHS.String() == "time" {
+			if n.Op == AND || n.Op == OR {
+				return n
+			}
+			if lhs, ok := n.LHS.(*VarRef); ok && strings.ToLower(lhs.Val) == "time" {
+				return &BooleanLiteral{Val: true}
+			} else if rhs, ok := n.RHS.(*VarRef); ok && strings.ToLower(rhs.Val) == "time" {
 				return &BooleanLiteral{Val: true}
 			}
 			return n
